@@ -19,29 +19,28 @@ attempt after a final outcome, verdict = last attempt, delays kept (never early)
 wait-after postpone and dispatch follow-ups exactly once, timeout both firing orders, fail-on,
 pause-before, ill-typed evaluated values give the declared error and nothing escapes.
 
-Findings on the unchanged tree (each is a VIOLATION with its own signature until the lead fixes it or lists it in
-known_findings.json; witnesses are the first three CORPUS traces and the *_refuted theorems of Properties/C08.v):
-  stale-continue-job                 policies._continue_task does not check that the task is still delayed: after the timer
-                                     failed the task (or a forced failure) the retry / wait-before continue job still runs,
-                                     a completed task goes back to RUNNING, a further attempt starts, on-error is
-                                     dispatched twice (seen on the real engine too: retry count=1 delay=4, timeout=2)
-  stale-wait-after-job               policies._complete_task: the same for the wait-after job; after timeout + retry it
-                                     completes the task with the result of attempt 1 while attempt 2 is RUNNING
-  late-result-of-timed-out-attempt   _fail_task_if_incomplete leaves the attempt's action execution RUNNING; its late result
-                                     completes the task during the retry delay / the next attempt / the wait-after delay
-                                     (timeout undone: the task ends SUCCESS)
+Findings. Fixed by /repo 5a4083bf (state guards in _continue_task / _complete_task, running action executions are
+abandoned when the timer fails the task): a continue / wait-after job acting on a task that is not DELAYED any more
+(completed task revived, on-error dispatched twice, task SUCCESS while attempt 2 runs) and the late result of a
+timed-out attempt deciding the task; their witnesses are regression cases of CORPUS and Properties/C08.v now.
+OPEN (known_findings.json; witnesses = first three CORPUS traces and the *_refuted theorems):
+  stale-wait-after-job   after the timer failed a task during its wait-after delay and the retry policy delayed it again,
+                         the wait-after job still finds it DELAYED and completes it with the pre-timeout result
+  stale-continue-job     after the timer failed a task during its retry / wait-before delay and retry / wait-after delayed
+                         it again, the older continue job still finds it DELAYED and starts the next attempt (a retry is
+                         consumed without an attempt; with wait-before + wait-after the timeout is undone)
+Both need a timeout shorter than the other delay and a second delay in flight; the signatures are raised only when a
+delayed job acts on a task that IS DELAYED but was changed since the job was scheduled.
 Once such a root cause acted in a trace the rest of that trace is not judged (consequences of the same defect).
-A candidate fix (numbered delays + abandoning the running attempt on timeout) is in C08_proposed_fix.diff: with it the
-oracle is silent on 6000 search traces.
 Observations that are NOT reported as violations: wait-after is served only after the first completion of a retried task;
 wait-before is dropped when pause-before pauses first (the unit suite expects that); after a timeout-triggered retry no
 timer is armed for the new attempts; FailOnPolicy._schema names "fail-on" while the field is fail_on, so a non-boolean
 evaluated value is never rejected and is used by truthiness; a literal 0 / false at task level cannot switch a
-task-default off; RegularTask._get_timeout raises TypeError on an ill-typed evaluated timeout (reachable only through a
-stale continue job); `del policy_ctx['retry_no']` in RetryPolicy is never persisted (nested dict of a MutableDict column,
-no touch_runtime_context()), which is why the attempt bound holds even with the stale jobs.
+task-default off; RegularTask._get_timeout raises TypeError on an ill-typed evaluated timeout (not reachable any more: the
+policy validation force-fails the task first and the continue job of a failed task is ignored); `del policy_ctx['retry_no']` in RetryPolicy is never persisted (nested dict of a MutableDict column,
+no touch_runtime_context()): retry_no never decreases, which the proof of the attempt bound uses.
 
-Self-test (scratch worktree, VERIF_REPO=/tmp/wt_C08_mut ./check C08; "new" = signatures the unchanged tree does not give;
+Self-test (run before the fix 5a4083bf; scratch worktree, VERIF_REPO=/tmp/wt_C08_mut ./check C08; "new" = signatures the unchanged tree does not give;
 every one also breaks the correspondence):
   M1  RetryPolicy `retries_remain = retry_no <= self.count`             new: attempts-exceed-count+1, attempt-after-final-outcome
   M2  RetryPolicy break_triggered tests `states.SUCCESS`                new: retry-not-continued, final-state-differs-from-last-outcome
@@ -1203,15 +1202,32 @@ def oracle_trace(ctx, task, dflt, mode, events, snaps, crash):
 
 
 CORPUS = [
-    # timeout expires during the retry delay; the stale continue job revives the failed task (3 attempts, count 1)
+    # --- open findings (the KNOWN-FINDING lines are reproduced from these on every run) ---
+    # stale-wait-after-job: wait-after 5, retry 2/10, timeout 2 (r1 of Proofs/PolicyRefuted.v)
+    {'task': {'wait-after': ('lit', 5), 'retry': {'count': ('lit', 2), 'delay': ('lit', 10), 'cont': False, 'brk': False},
+              'timeout': ('lit', 2)}, 'dflt': None,
+     'events': [['start'], ['tick', 1], ['act', 0, 'SUCCESS', False, False], ['tick', 1], ['fire', 0], ['tick', 4], ['fire', 0],
+                ['tick', 6], ['fire', 0]]},
+    # stale-continue-job: wait-before 5, wait-after 4, timeout 3 (r2) and retry 2/5, timeout 3 (r3)
+    {'task': {'wait-before': ('lit', 5), 'wait-after': ('lit', 4), 'timeout': ('lit', 3)}, 'dflt': None,
+     'events': [['start'], ['tick', 3], ['fire', 1], ['tick', 2], ['fire', 0], ['tick', 1], ['act', 0, 'SUCCESS', False, False],
+                ['tick', 1], ['fire', 0]]},
+    {'task': {'retry': {'count': ('lit', 2), 'delay': ('lit', 5), 'cont': False, 'brk': False}, 'timeout': ('lit', 3)}, 'dflt': None,
+     'events': [['start'], ['tick', 1], ['act', 0, 'ERROR', False, False], ['tick', 2], ['fire', 0], ['tick', 3], ['fire', 0],
+                ['tick', 2], ['fire', 0], ['act', 1, 'ERROR', False, False]]},
+    # --- regression: witnesses of the findings fixed by /repo 5a4083bf (must be clean) ---
+    # timeout expires during the retry delay; the continue job must not revive the failed task
     {'task': {'retry': {'count': ('lit', 1), 'delay': ('lit', 5), 'cont': False, 'brk': False}, 'timeout': ('lit', 3)}, 'dflt': None,
      'events': [['start'], ['tick', 1], ['act', 0, 'ERROR', False, False], ['tick', 2], ['fire', 0], ['tick', 3], ['fire', 0],
                 ['tick', 1], ['act', 1, 'ERROR', False, False], ['tick', 5], ['fire', 0], ['tick', 1], ['act', 2, 'ERROR', False, False]]},
-    # timeout during wait-after, retried, the stale wait-after job ends the task SUCCESS while attempt 2 runs
+    # timeout during wait-after, retried: the wait-after job of attempt 1 must not complete the task while attempt 2 runs
     {'task': {'retry': {'count': ('lit', 2), 'delay': ('lit', 3), 'cont': False, 'brk': False}, 'wait-after': ('lit', 10),
               'timeout': ('lit', 5)}, 'dflt': None,
      'events': [['start'], ['tick', 1], ['act', 0, 'SUCCESS', False, False], ['tick', 4], ['fire', 0], ['tick', 3], ['fire', 1],
                 ['tick', 3], ['fire', 0]]},
+    # the late result of the attempt that was running when the timer expired must not undo the timeout
+    {'task': {'wait-after': ('lit', 2), 'timeout': ('lit', 5)}, 'dflt': None,
+     'events': [['start'], ['tick', 5], ['fire', 0], ['tick', 1], ['act', 0, 'SUCCESS', False, False], ['tick', 1], ['fire', 0]]},
     # timeout shorter than wait-before
     {'task': {'wait-before': ('lit', 5), 'timeout': ('lit', 3)}, 'dflt': None,
      'events': [['start'], ['tick', 3], ['fire', 1], ['tick', 2], ['fire', 0], ['tick', 1], ['act', 0, 'SUCCESS', False, False]]},
@@ -1297,8 +1313,9 @@ def gen_cases(ctx, n):
 
 
 def engine_traces(ctx):
-    """Hook for the whole-engine trace harness (built separately by the lead)."""
-    pass
+    """The real engine (DB, scheduler, executor) under the lead's deterministic driver: oracle only."""
+    from harness import engine_explore as ee
+    ee.explore(ctx, ['C08'], ['retry', 'policies'], ctx.n(24, 240), 4, suite='engine_explore_C08')
 
 
 def run(ctx):
@@ -1313,7 +1330,7 @@ def run(ctx):
         suite_retry_decision(ctx)
         suite_traces(ctx, [dict(c, mode='due') for c in CORPUS], tag='traces_corpus')
         suite_traces(ctx, gen_cases(ctx, ctx.n(1800, 24000)))
-        engine_traces(ctx)
+    engine_traces(ctx)
     ctx.assumptions += ['expressions evaluate to the values the generator put into the task context (real YAQL evaluates them)',
                         'one engine process: a scheduler job or an action result is processed in one transaction',
                         'the workflow controller maps the final task state to the follow-up commands (stub)']
